@@ -124,7 +124,7 @@ func genC03(g *Gen) {
 	g.sortExtremes(rid)
 	g.sortTiePatterns(rid)
 	// adversarial inputs: quicksort killers for the sorter that is in the tree
-	for _, n := range []int{50, 100, 257, 1000, g.pick(2000, 5000)} {
+	for _, n := range []int{50, 51, 100, 101, 256, 257, 1000, 1001, g.pick(2000, 5000)} {
 		vals := antiQuicksort(n)
 		g.begin("antiquicksort")
 		f := g.do(Step{Op: "New", Recv: -1, Data: []ColData{{Name: toBS("K"), Kind: "int", Ints: vals}}})
